@@ -169,6 +169,7 @@ func corpusMain(args []string) error {
 	jobs := fs.Int("j", 16, "parallelism")
 	gocache := fs.String("gocache", "", "GOCACHE to use")
 	deadline := fs.Duration("deadline", 20*time.Second, "per (scenario, option set) run deadline")
+	verifTag := fs.Bool("verif", false, "peg was built with -tags verif: record machine-step events")
 	_ = fs.Parse(args)
 	paths, _ := filepath.Glob(*scenGlob)
 	if len(paths) == 0 {
@@ -236,6 +237,9 @@ func corpusMain(args []string) error {
 			}
 			if u.sc.AllU {
 				shim = strings.ReplaceAll(shim, "//@U ", "")
+			}
+			if *verifTag && !strings.Contains(u.opt, "n") {
+				shim = strings.ReplaceAll(shim, "//@V ", "")
 			}
 			_ = os.WriteFile(filepath.Join(u.dir, "run.go"), []byte(shim), 0o644)
 		} else {
